@@ -358,6 +358,76 @@ fn chunk_log_of(bytes: &[u8], chunk_size: usize) -> Vec<ChunkLog> {
     d.chunk_log.take().unwrap_or_default()
 }
 
+/// A valid stream of more than 16 MiB (17 messages of 1 MiB and a ping, chunk size 1 MiB announced
+/// in-band) delivered in one call and in 64 KiB pieces: the concatenated results must be the same
+/// (a byte-by-byte reference is too slow at this size; which two partitions are compared does not
+/// matter for the property).
+fn big_stream_case(which: u64, out: &mut Out) {
+    out.eval(1);
+    let mut enc = Encoder::new();
+    let mut wire = enc.encode_simple(&crate::refs::chunk::set_chunk_size_msg(1 << 20, 0), 2);
+    enc.chunk_size = 1 << 20;
+    for i in 0..17u32 {
+        let data: Vec<u8> = (0..(1usize << 20) + i as usize).map(|j| (j as u32).wrapping_mul(2654435761).wrapping_add(i) as u8).collect();
+        wire.extend(enc.encode_simple(&Msg { type_id: 22, msid: 0, ts: i, data }, 7));
+    }
+    wire.extend(enc.encode_simple(&Msg { type_id: 4, msid: 0, ts: 99, data: vec![0, 6, 0, 0, 0, 5] }, 2));
+    let name = ["ChunkDeserializer", "ServerSession[started]", "ClientSession[disconnected]"][which as usize];
+    let mut make = || -> Box<dyn Target> {
+        match which {
+            0 => Box::new(DeserTarget { d: ChunkDeserializer::new() }),
+            1 => {
+                let mut r = Rng::new(1);
+                let (mut rig, _) = sessprep::prep_server(0, &mut r).unwrap_or_else(|e| panic!("harness: {}", e));
+                rig.clock_step = 0;
+                Box::new(ServerTarget { rig })
+            }
+            _ => {
+                let mut r = Rng::new(1);
+                let mut rig = sessprep::prep_client(0, &mut r).unwrap_or_else(|e| panic!("harness: {}", e));
+                rig.clock_step = 0;
+                Box::new(ClientTarget { rig })
+            }
+        }
+    };
+    let mut run = |pieces: &[usize]| -> Result<(Vec<String>, Option<String>), (String, String)> {
+        let mut t = make();
+        let wire = &wire;
+        guarded(move || {
+            let mut all: Vec<String> = Vec::new();
+            let mut pos = 0;
+            for n in pieces {
+                match t.call(&wire[pos..pos + n]) {
+                    Ok(items) => all.extend(items.iter().map(|i| match i { Item::Msg(m) | Item::Unhandled(m) => format!("type {} len {} ts {} sum {}", m.type_id, m.data.len(), m.ts, crate::rng::fnv(&m.data)), other => brief(other) })),
+                    Err(e) => return (all, Some(e)),
+                }
+                pos += n;
+            }
+            (all, None)
+        })
+    };
+    let len = wire.len();
+    let whole = vec![len];
+    let mut pieces = vec![65_536usize; len / 65_536];
+    if len % 65_536 != 0 {
+        pieces.push(len % 65_536);
+    }
+    let a = run(&whole);
+    let b = run(&pieces);
+    match (a, b) {
+        (Ok(a), Ok(b)) => {
+            if a.1 != b.1 {
+                out.violation("error-in-one-partition-only", json!({"target": name, "stream": "17 messages of 1 MiB and a ping, more than 16 MiB", "one_call": a.1, "64KiB_pieces": b.1}));
+            } else if a.0 != b.0 {
+                out.violation("delivered-results-differ-between-partitions", json!({"target": name, "stream": "17 messages of 1 MiB and a ping, more than 16 MiB", "one_call_results": a.0.len(), "64KiB_pieces_results": b.0.len()}));
+            } else {
+                out.count("streams_of_more_than_16_MiB_partition_independent", 1);
+            }
+        }
+        (Err((loc, msg)), _) | (_, Err((loc, msg))) => out.violation(&panic_signature(&loc, &msg), json!({"target": name, "panic_at": loc, "panic_message": msg})),
+    }
+}
+
 impl Check for C15 {
     fn id(&self) -> &'static str {
         "C15"
@@ -365,6 +435,7 @@ impl Check for C15 {
     fn plan(&self, tier: Tier) -> Plan {
         let mut p = Plan::new(tier.pick(480_000, 48_000_000), tier.pick(30.0, 420.0));
         p.cpu_budget_s = 60.0;
+        p.mandatory = 3;
         p
     }
     fn selftest(&self) -> Result<(), String> {
@@ -372,6 +443,10 @@ impl Check for C15 {
     }
     fn run_case(&self, tier: Tier, k: u64, rng: &mut Rng, out: &mut Out) {
         let _cg = ClockGuard;
+        if k < 3 {
+            big_stream_case(k, out);
+            return;
+        }
         let nparts = tier.pick(3, 8);
         let target = k % 3;
         let origin_i = (k / 3) % 4;
@@ -464,7 +539,7 @@ impl Check for C15 {
         }
     }
     fn rule(&self) -> String {
-        "targets {bare ChunkDeserializer (chunk sizes honoured as the sessions do), ServerSession and ClientSession each in a random one of 10 state classes reached by a valid prefix, clock frozen} x stream origins {library-serializer output / valid protocol command streams, foreign-conformant streams, mutated-invalid (bit flips, truncation, inserted/deleted/duplicated bytes), chunk-level hostile headers}. The byte-by-byte run records, per byte offset, what the call delivering that byte returned and the offset/kind of the first error. Every other partition (whole, per chunk, 3 (thorough 8) with 1-6 cuts placed inside chunk headers, 3 (8) random) is checked call by call: a call covering offsets [s,e) must return exactly the reference outputs for s..e (events/messages in order, decoded responses in order, acknowledgements excluded), and an Err of the same kind exactly in the call containing the reference's failing offset. distinct = (target, origin, state, chunk-count class, length class).".to_string()
+        "cases 0-2: a valid stream of more than 16 MiB (17 messages of 1 MiB and a ping) in one call versus 64 KiB pieces, for each target kind. Otherwise: targets {bare ChunkDeserializer (chunk sizes honoured as the sessions do), ServerSession and ClientSession each in a random one of 10 state classes reached by a valid prefix, clock frozen} x stream origins {library-serializer output / valid protocol command streams, foreign-conformant streams, mutated-invalid (bit flips, truncation, inserted/deleted/duplicated bytes), chunk-level hostile headers}. The byte-by-byte run records, per byte offset, what the call delivering that byte returned and the offset/kind of the first error. Every other partition (whole, per chunk, 3 (thorough 8) with 1-6 cuts placed inside chunk headers, 3 (8) random) is checked call by call: a call covering offsets [s,e) must return exactly the reference outputs for s..e (events/messages in order, decoded responses in order, acknowledgements excluded), and an Err of the same kind exactly in the call containing the reference's failing offset. distinct = (target, origin, state, chunk-count class, length class).".to_string()
     }
     fn assumptions(&self) -> Vec<String> {
         vec![
